@@ -12,6 +12,7 @@ import MosVerif.Lemmas.CacheKeyLemmas
 import MosVerif.Lemmas.MarkerLemmas
 import MosVerif.Lemmas.MemCacheLemmas
 import MosVerif.Lemmas.QCacheLemmas
+import MosVerif.Lemmas.TranslatedC07
 import MosVerif.Generated.Facts
 namespace MosVerif.C07
 
@@ -617,8 +618,6 @@ theorem pins_memcache :
     Facts.mc_tryRLock = "!e.l.TryRLock()" ∧
     Facts.mc_recheck = "e.v == nil || e.k != string(k)" ∧
     Facts.mc_getBody = "{ c.getTotal.Inc() misses := 0 for retry := 0; retry < 8; retry++ { e, ok := c.backend.Get(utils.Bytes2StrUnsafe(k)) if !ok { if misses++; misses < 3 { continue } break } if !e.l.TryRLock() { continue } if e.v == nil || e.k != string(k) { e.l.RUnlock() continue } v = pool.CopyBuf(e.v) storedTime = e.storedTime expireTime = e.expireTime e.l.RUnlock() c.hitTotal.Inc() return v, storedTime, expireTime } return nil, time.Time{}, time.Time{} }" ∧
-    Facts.mc_getBudget = "retry < 8" ∧
-    Facts.mc_getMisses = "misses < 3" ∧
     Facts.mc_storeBody = "{ ks := string(k) vCopy := pool.CopyBuf(v) e := newCacheEntry() e.l.Lock() e.storedTime = storedTime e.expireTime = expireTime e.k = ks e.v = vCopy e.l.Unlock() ttl := time.Until(expireTime) if setNX { l := &c.storeLocks[maphash.String(storeLockSeed, ks)%uint64(len(c.storeLocks))] l.Lock() defer l.Unlock() ok := c.backend.SetIfAbsent(ks, e, ttl) if !ok { if _, alive := c.backend.Get(ks); !alive { c.backend.Delete(ks) ok = c.backend.SetIfAbsent(ks, e, ttl) } } if !ok { releaseEntry(e) } } else { l := &c.storeLocks[maphash.String(storeLockSeed, ks)%uint64(len(c.storeLocks))] l.Lock() defer l.Unlock() if !c.backend.Set(ks, e, ttl) { releaseEntry(e) } } }" ∧
     Facts.mc_setIfAbsent = "ok := c.backend.SetIfAbsent(ks, e, ttl)" ∧
     Facts.mc_leftover = "!alive" ∧
@@ -633,32 +632,24 @@ theorem pins_memcache :
 
 /-- the five repairs the converse direction rests on: no entry recycling + idempotent release (fb0d3a6,
     `mc_newEntry`, `mc_releaseBody`), leftover removal under the stripe lock and release of a refused
-    entry (3a97998, `mc_storeBody`, `mc_leftover`), lookup retries (f8fe887, `mc_getBody`), the size clamp
-    (3baf9cd) and the lifetime cap (949de0e; the constant is in nanoseconds) -/
+    entry (3a97998, `mc_storeBody`, `mc_leftover`), lookup retries (f8fe887, `mc_getBody`; the budgets `retry < 8`,
+    `misses < 3` are tied by translation: `Netlist.c07_getBudget_translated`, `c07_getMisses_translated`), the size
+    clamp (3baf9cd: `Netlist.c07_clampSize_translated`) and the lifetime cap (949de0e; the constant is in
+    nanoseconds; limit and cap by translation: `Netlist.c07_clampTtl_translated`). The comparisons of
+    `internal/netlist` are tied by `Netlist.c07_ipv6cmp_translated`, `c07_contains_translated`,
+    `c07_builderAdd_translated`, `c07_overlapAdj_translated`, `c07_lookupNone_translated`. -/
 theorem pins_repairs :
     Facts.mc_newEntry = "{ return new(cacheEntry) }" ∧
-    Facts.mc_getBudget = "retry < 8" ∧
-    Facts.mc_getMisses = "misses < 3" ∧
     Facts.mc_leftover = "!alive" ∧
-    Facts.mc_sizeClampCond = "uint64(size) > math.MaxUint32" ∧
-    Facts.mc_sizeClamp = "size = math.MaxUint32" ∧
     Facts.mc_builder = "builder, err := otter.NewBuilder[string, *cacheEntry](size)" ∧
-    Facts.cc_ttlLimit = 1000000000 * MosVerif.QCache.tenYears ∧
-    Facts.cc_ttlClampCond = "c.maximumTtl > maxCacheTtlLimit" ∧
-    Facts.cc_ttlClamp = "c.maximumTtl = maxCacheTtlLimit" ∧
-    Facts.cc_ttlApply = "ttl > c.maximumTtl" := by
-  refine ⟨rfl, rfl, rfl, rfl, rfl, rfl, rfl, by decide, rfl, rfl, rfl⟩
+    Facts.cc_ttlLimit = 1000000000 * MosVerif.QCache.tenYears := by
+  refine ⟨rfl, rfl, rfl, by decide⟩
 
 theorem pins_netlist :
-    Facts.nl_overlap = "rs[i].end.cmp(rs[i+1].start) >= 0" ∧
     Facts.nl_overlapLoop = "i < len(rs)-1" ∧
     Facts.nl_less = "return rs[i].start.cmp(rs[j].start) < 0" ∧
     Facts.nl_search = "return ip.cmp(l.e[i].start) < 0" ∧
-    Facts.nl_zero = "i == 0" ∧
     Facts.nl_pred = "return l.e[i-1].contains(ip)" ∧
-    Facts.nl_contains = "r.start.cmp(ip) <= 0 && ip.cmp(r.end) <= 0" ∧
-    Facts.nl_addRange = "r.start.cmp(r.end) > 0" ∧
-    Facts.nl_cmpBody = "{ if ip.h < ip2.h { return -1 } if ip.h > ip2.h { return 1 } if ip.l < ip2.l { return -1 } if ip.l > ip2.l { return 1 } return 0 }" ∧
     Facts.nl_addr2Ipv6 = "{ b := addr.As16() return Ipv6{ h: binary.BigEndian.Uint64(b[:8]), l: binary.BigEndian.Uint64(b[8:]), } }" ∧
     Facts.im_comment = "t, _, _ = strings.Cut(t, \"#\")" ∧
     Facts.im_trim = "t = strings.TrimSpace(t)" ∧
